@@ -339,7 +339,25 @@ func (x *Exec) execInstr(bc *blockCtx, in ssa.Instruction) ([]*Edge, bool) {
 		}
 		return nil, true
 
-	case *ssa.Go, *ssa.Send, *ssa.Select, *ssa.MakeChan:
+	case *ssa.MakeChan:
+		// a channel is an opaque reference with a ghost send counter
+		ref := x.freshRef("chan_" + i.Name())
+		x.heapSorts["G_calls"] = "(Array Int Int)"
+		bc.st.heaps["G_calls"] = x.sto(x.getHeap(bc.st, "G_calls"), ref, x.b.Int(0))
+		set(i, &Val{Typ: i.Type(), T: ref})
+		x.note("channels are modelled as ghost send counters (each sent value is assumed to be received exactly once)")
+		return nil, false
+	case *ssa.Send:
+		ch := x.term(bc, i.Chan)
+		v := x.valueIn(fr, bc.env, i.X)
+		x.onSend(bc, in, i.Chan, ch, v)
+		return nil, false
+	case *ssa.Go:
+		// spawned goroutines are outside the sequential model: their effects on
+		// memory read by this function are not modelled (stated assumption)
+		x.note("go statements are skipped: goroutine bodies are not part of the sequential verification condition")
+		return nil, false
+	case *ssa.Select:
 		panic(unsupported(fmt.Sprintf("concurrency instruction %T", in)))
 	}
 	panic(unsupported(fmt.Sprintf("instruction %T", in)))
@@ -904,4 +922,38 @@ func isNilSSA(v ssa.Value) bool {
 		return true
 	}
 	return false
+}
+
+// onSend: obligations attached to sends on a named channel variable
+// (`oncall <chan> ...` with the sent value as arg0), plus the ghost send counter.
+func (x *Exec) onSend(bc *blockCtx, in ssa.Instruction, chv ssa.Value, ch *smt.Term, v *Val) {
+	name := ""
+	if refs := chv.Referrers(); refs != nil {
+		for _, r := range *refs {
+			if d, ok := r.(*ssa.DebugRef); ok {
+				if id, ok := d.Expr.(interface{ String() string }); ok {
+					name = id.String()
+					break
+				}
+			}
+		}
+	}
+	if bc.fr.fc != nil && x.spec == 0 && name != "" {
+		for i, cl := range bc.fr.fc.OnCall[name] {
+			vars := map[string]*Val{}
+			for k, w := range bc.fr.params {
+				vars[k] = w
+			}
+			vars["arg0"] = v
+			ce := &CEnv{x: x, fr: bc.fr, st: bc.st, old: bc.fr.entry, vars: vars, lets: bc.fr.lets, guard: bc.reach, fc: bc.fr.fc, env: bc.env}
+			lab := fmt.Sprintf("#%d", i)
+			if cl.Label != "" {
+				lab = ":" + cl.Label
+			}
+			x.oblige("oncall", fmt.Sprintf("%sonsend(%s)%s", bc.fr.prefix, name, lab), bc.reach, x.evalBool(ce, cl), posOf(in), cl.Text, false)
+		}
+	}
+	x.heapSorts["G_calls"] = "(Array Int Int)"
+	h := x.getHeap(bc.st, "G_calls")
+	bc.st.heaps["G_calls"] = x.sto(h, ch, x.b.Add(x.sel(h, ch, "Int"), x.b.Int(1)))
 }
